@@ -515,9 +515,9 @@ void _ZNK4bloc9TupleDecl4Decl9tupleNameB5cxx11Ev(void* ret, void* self) { vx_str
 static char vx_numtext[16]; static long vx_numtext_len = -1;
 void vx_set_numtext(void* s, long n) { __CPROVER_assert(n >= 0 && n <= 15, "model bound: number text"); for (long i = 0; i < 15; i++) if (i < n) vx_numtext[i] = ((char*)s)[i]; vx_numtext_len = n; }
 double vx_num_of_text(void* s) { return nondet_double(); }
-void _ZN4bloc5Value15readableNumericB5cxx11ERd(void* ret, void* d) { if (vx_numtext_len >= 0) vx_str_init(S(ret), vx_numtext, (uint64_t)vx_numtext_len); else vx_str_init(S(ret), "#num", 4); }
-void _ZN4bloc5Value15readableIntegerB5cxx11ERl(void* ret, void* l) { vx_str_init(S(ret), "#int", 4); }
-void _ZN4bloc5Value17readableImaginaryB5cxx11ERNS_9ImaginaryE(void* ret, void* i) { vx_str_init(S(ret), "(#img)", 6); }
+void vxstub__ZN4bloc5Value15readableNumericB5cxx11ERd(void* ret, void* d) { if (vx_numtext_len >= 0) vx_str_init(S(ret), vx_numtext, (uint64_t)vx_numtext_len); else vx_str_init(S(ret), "#num", 4); }
+void vxstub__ZN4bloc5Value15readableIntegerB5cxx11ERl(void* ret, void* l) { vx_str_init(S(ret), "#int", 4); }
+void vxstub__ZN4bloc5Value17readableImaginaryB5cxx11ERNS_9ImaginaryE(void* ret, void* i) { vx_str_init(S(ret), "(#img)", 6); }
 
 void _ZN4bloc3DBGEiPKcz(int level, void* fmt, ...) { }      /* bloc::DBG: debug logging, no effect on any property */
 void _ZN4bloc8DBGLevelEi(int level) { }
